@@ -346,13 +346,13 @@ Proof.
   revert l; induction p as [|a p IH]; intros l; simpl.
   - split; [intro H; injection H as ->; reflexivity | intros ->; reflexivity].
   - destruct l as [|b l]; [split; discriminate|].
-    destruct (Nat.eqb a b) eqn:E.
-    + apply Nat.eqb_eq in E as ->. rewrite IH. split; [intros ->; reflexivity | intro H; injection H as ->; reflexivity].
-    + split; [discriminate|]. intro H. injection H as -> _. rewrite Nat.eqb_refl in E. discriminate.
+    destruct (N.eqb a b) eqn:E.
+    + apply N.eqb_eq in E as ->. rewrite IH. split; [intros ->; reflexivity | intro H; injection H as ->; reflexivity].
+    + split; [discriminate|]. intro H. injection H as -> _. rewrite N.eqb_refl in E. discriminate.
 Qed.
 
 Lemma bytes_eqb_eq a b : bytes_eqb a b = true <-> a = b.
-Proof. apply list_eqb_spec. apply Nat.eqb_eq. Qed.
+Proof. apply list_eqb_spec. apply N.eqb_eq. Qed.
 
 Lemma bool_iff_eq (a b : bool) : (a = true <-> b = true) -> a = b.
 Proof. destruct a, b; intros [H1 H2]; try reflexivity; [symmetry; apply H1 | apply H2]; reflexivity. Qed.
@@ -392,14 +392,14 @@ Fixpoint relines (ls : list bytes) : list bytes :=
   end.
 
 Lemma split_lf_nonempty f : split_lf f <> [].
-Proof. destruct f as [|b r]; simpl; [discriminate|]. destruct (Nat.eqb b 10); [discriminate|].
+Proof. destruct f as [|b r]; simpl; [discriminate|]. destruct (N.eqb b 10); [discriminate|].
   destruct (split_lf r); discriminate. Qed.
 
 Lemma readlines_relines f : readlines f = relines (split_lf f).
 Proof.
   induction f as [|b r IH]; [reflexivity|]. simpl. unfold LF.
-  destruct (Nat.eqb b 10) eqn:E.
-  - apply Nat.eqb_eq in E as ->. simpl. rewrite IH.
+  destruct (N.eqb b 10) eqn:E.
+  - apply N.eqb_eq in E as ->. simpl. rewrite IH.
     destruct (split_lf r) eqn:S; [exfalso; exact (split_lf_nonempty r S) | reflexivity].
   - rewrite IH. destruct (split_lf r) as [|l ls] eqn:S; [exfalso; exact (split_lf_nonempty r S)|].
     simpl. destruct ls; [destruct l; reflexivity | reflexivity].
@@ -456,18 +456,18 @@ Qed.
 Lemma split_lf_join f : join_lf (split_lf f) = f.
 Proof.
   induction f as [|b r IH]; [reflexivity|]. simpl.
-  destruct (Nat.eqb b 10) eqn:E.
-  - apply Nat.eqb_eq in E as ->. simpl.
+  destruct (N.eqb b 10) eqn:E.
+  - apply N.eqb_eq in E as ->. simpl.
     destruct (split_lf r) eqn:S; [exfalso; exact (split_lf_nonempty r S)|]. rewrite IH. reflexivity.
   - destruct (split_lf r) as [|l ls] eqn:S; [exfalso; exact (split_lf_nonempty r S)|].
     simpl in *. destruct ls; rewrite <- IH; reflexivity.
 Qed.
 
-Lemma split_lf_no_lf f : Forall (fun l => ~ In 10 l) (split_lf f).
+Lemma split_lf_no_lf f : Forall (fun l => ~ In 10%N l) (split_lf f).
 Proof.
   induction f as [|b r IH]; simpl.
   - constructor; [intros []|constructor].
-  - destruct (Nat.eqb b 10) eqn:E.
+  - destruct (N.eqb b 10) eqn:E.
     + constructor; [intros [] | exact IH].
     + destruct (split_lf r) as [|l ls]; [constructor; [|constructor]|].
       * intros [H|[]]. subst b. discriminate.
@@ -510,17 +510,17 @@ Proof. intro W. rewrite (load_ids_lists nm f (wf_name_ends nm W)). apply file_li
 Definition list_output (nms : list bytes) (ids : list id) : bytes :=
   flat_map (fun i => nth i nms [] ++ [LF]) ids.
 
-Lemma split_lf_line l r : ~ In 10 l -> split_lf (l ++ 10 :: r) = l :: split_lf r.
+Lemma split_lf_line l r : ~ In 10%N l -> split_lf (l ++ 10%N :: r) = l :: split_lf r.
 Proof.
   induction l as [|b l IH]; intro H; [reflexivity|]. simpl.
-  destruct (Nat.eqb b 10) eqn:E; [apply Nat.eqb_eq in E; subst b; exfalso; apply H; left; reflexivity|].
+  destruct (N.eqb b 10) eqn:E; [apply N.eqb_eq in E; subst b; exfalso; apply H; left; reflexivity|].
   rewrite IH; [reflexivity|]. intro I. apply H. right. exact I.
 Qed.
 
-Lemma wf_name_no_lf nm : wf_nameb nm = true -> ~ In 10 nm.
+Lemma wf_name_no_lf nm : wf_nameb nm = true -> ~ In 10%N nm.
 Proof.
   unfold wf_nameb. intro H. apply andb_true_iff in H as [_ H]. rewrite forallb_forall in H.
-  intro I. specialize (H 10 I). discriminate.
+  intro I. specialize (H 10%N I). discriminate.
 Qed.
 
 Lemma line_lists_self nm : wf_nameb nm = true -> line_lists nm nm = true.
@@ -542,7 +542,7 @@ Proof.
     unfold file_lists. apply existsb_exists. exists nm. split; [|apply line_lists_self; exact Wn].
     clear B. induction ids as [|j r IH]; [destruct I|].
     unfold list_output. simpl. fold (list_output nms r). rewrite <- app_assoc. simpl.
-    assert (Wj : ~ In 10 (nth j nms [])).
+    assert (Wj : ~ In 10%N (nth j nms [])).
     { destruct (nth_error nms j) as [x|] eqn:Ej.
       - rewrite (nth_error_nth nms j [] Ej). apply wf_name_no_lf. rewrite forallb_forall in W. apply W.
         eapply nth_error_In; exact Ej.
